@@ -188,7 +188,7 @@ PROPS["C20"] = {
 }
 
 PROPS["C13"] = {
-    "verus_units": ["parser_tokens", "preparse"],
+    "verus_units": ["parser_tokens", "preparse", "cst_parser"],
     "replay": ["parser", "cst"],
     "frames": [
         {"name": "Parser cursor and leaves are written only by new/bump",
@@ -198,23 +198,25 @@ PROPS["C13"] = {
          "allowed": ["new", "bump"], "must_exist": ["bump", "parse", "parse_statement", "expect"],
          "searcher": "cst"},
     ],
-    "floor": {"obligations": 65},
+    "floor": {"obligations": 115},
     "trusted_base": [
         "ASSUMED contract of the chumsky lexer built in tokenize (vx_chumsky_lex): it always yields a token vector and the spans it hands out tile the input (third-party combinators: outside any verifier's reach); model of chumsky MapExtra::span / SimpleSpan",
         "ASSUMED contract of split_projection_float_tokens (FnMut closure capturing &mut Vec, str::split_once, chars(): outside Verus): re-splitting a float after a dot keeps the tiling",
         "derive(PartialEq) on the field-less enum TokenKind is structural equality",
         "N10 helpers vx_map_append / vx_map_extend: HashMap::entry(k).or_default().append(&mut v) / .extend(v) append to the list under k (created empty if absent), leave other entries untouched",
         "green.rs is under contract (no builder model any more). Its trusted parts: model of slotmap::SlotMap<GreenNodeId, V> (finite map + ghost insertion stamp; insert returns a fresh key, never touches stored values; Index panics on a dead key); T-helpers with assumed std meaning vx_last_mut (Vec::last_mut), vx_drain_from (Vec::drain(pos..).collect()), vx_width_sum (the width bookkeeping of alloc_internal is dropped: widths play no part in the leaf sequence); byte length of a &str fits in usize",
-        "ASSUMED contract of Parser::parse_statement (and through it the ~60 mutually recursive parse_* methods, which take FnOnce(&mut Self) closures through emit_node: outside Verus): keeps the leaf invariant (consumes tokens only through bump/expect: backed by the frame condition `Parser cursor and leaves are written only by new/bump`, a token scan of cst_parser.rs), never moves `current` backwards, and closes every syntax node it opens (emit_node / start_node_at .. finish_node pairs; start_node_at markers are within the open node)",
+        "unit cst_parser: every `&mut self` method of `impl Parser` (the ~50 recursive-descent parse_* methods, bump, expect, expects, expect_all, parse) is verified against one uniform contract after rule N13 (the body of NodeBuilder::emit_node, checked literally on every run, is inlined at each call and its FnOnce(&mut Self) argument beta-reduced). PARTIAL correctness only for the parse_* methods (exec_allows_no_decreases_clause: termination of the recursive descent is property C04's concern, not the tree clause); Parser::parse's own loop is proved terminating",
+        "unit cst_parser, ABSTRACTED (no assumption made): the `&self` lookahead helpers (peek_ahead, has_trailing_linebreak, is_tuple_expr, ... : external_body with no postcondition; Rust's `&self` gives the frame) and two lookahead expressions inside parse_type / parse_type_tuple_or_paren (a `for` loop and a `find_map` closure that read through `&self` and count parentheses in a local) whose results are left unconstrained; the hidden text is covered by the frame scan `Parser cursor and leaves are written only by new/bump`",
+        "unit cst_parser, ASSUMED: vx_add_nowrap (rule nowrap:self.current) -- `self.current += ..` in bump does not wrap (each increment is one executed bump; 2^64 of them cannot occur); ParserError constructors and format! are opaque (message text is not part of any contract); `<[T]>::contains` has no postcondition",
         "vstd specifications of Vec, HashMap<usize,_>, Option, str::len",
     ],
     "assumptions": ["the replace_range rule on tokenize: the statements that build and run the chumsky lexer are replaced by one call of the assumed lexer contract"],
     "not_covered": [
         "the chumsky lexer itself and split_projection_float_tokens (assumed contracts above); character-boundary clause of the tiling (follows from the lexer assumption only)",
-        "the 60 mutually recursive parse_* methods (closures taking &mut Self through emit_node are outside Verus): their monotonicity / leaf invariant / balanced node nesting is the assumed contract of parse_statement; red.rs (positions over the green tree); expects / expect_all (three-arm guarded match, fold with a closure capturing &mut self)",
+        "termination of the recursive-descent methods (partial correctness only); red.rs (positions over the green tree); the lowering of the tree to the AST (lower.rs)",
         "file-leading trivia up to the last line break before the first syntax token are attached to no token: known finding F2 (the proved postcondition excludes exactly this block)",
     ],
-    "explanation": "C13 first-party part: the two closures of tokenize turn a lexer span into a token covering exactly that span; given the assumed lexer/splitter contracts tokenize returns a lossless stream (tiling + zero-length Eof at the end); preparse: token_indices are exactly the syntax tokens in order, and there is a one-to-one correspondence (owner) between attached trivia indices and list positions of the two trivia maps -- nothing but trivia is attached, nothing twice, and every trivia token is attached when a syntax token exists, except the F2 block; green.rs tree builder (real code): the leaf sequence (token indices depth-first, left to right, over the slot-map arena) is an abstract view of GreenTreeBuilder; add_token appends one leaf (or loses the token when no node is open: explicit in the contract), start_node / start_node_at / finish_node keep the sequence, the node returned by the last finish_node carries exactly that sequence; Parser::bump appends exactly token_indices[current] to the tree leaves and advances by one; peek / check / is_at_end / expect are specified against the syntax-token sequence; Parser::parse (main loop with the no-progress recovery bump) terminates and, given the assumed contract of parse_statement, returns a root node whose leaves in the returned arena are exactly the syntax tokens, once each, in source order (node_leaves(arena, root) == token_indices).",
+    "explanation": "C13 first-party part: the two closures of tokenize turn a lexer span into a token covering exactly that span; given the assumed lexer/splitter contracts tokenize returns a lossless stream (tiling + zero-length Eof at the end); preparse: token_indices are exactly the syntax tokens in order, and there is a one-to-one correspondence (owner) between attached trivia indices and list positions of the two trivia maps -- nothing but trivia is attached, nothing twice, and every trivia token is attached when a syntax token exists, except the F2 block; green.rs tree builder (real code): the leaf sequence (token indices depth-first, left to right, over the slot-map arena) is an abstract view of GreenTreeBuilder; add_token appends one leaf (or loses the token when no node is open: explicit in the contract), start_node / start_node_at / finish_node keep the sequence, the node returned by the last finish_node carries exactly that sequence; Parser::bump appends exactly token_indices[current] to the tree leaves and advances by one (at the end of input it only moves the cursor); peek / check / is_at_end / expect / expects / expect_all are specified against the syntax-token sequence; EVERY recursive-descent method parse_* is verified (unit cst_parser, 95 functions) against the uniform contract pin -> pout: it keeps the leaf invariant (tree leaves == syntax tokens consumed so far, in order), never moves the cursor backwards, never changes a token span or the preparse tables (only re-marks Ident kinds), closes every node it opens, and its start_node_at markers stay inside the innermost open node; Parser::parse (main loop with the no-progress recovery bump) terminates and returns a root node whose leaves in the returned arena are exactly the syntax tokens, once each, in source order (node_leaves(arena, root) == token_indices) -- no assumption about parse_statement is left.",
     "samples": [
         {"obligation": "preparse::ensures", "clause": "exists owner: owner_ok(tokens, leading, trailing, owner, n_syntax) && coverage minus dropped_upto"},
         {"obligation": "error_token_of_span::ensures", "clause": "r.start == span.start && r.start + r.length == span.end"},
